@@ -10,13 +10,13 @@ CLAIMED = {
          'Real library on 5 backend/share builds (quick) or 60 (thorough); 9 C entry-point families; full small (adlen,mlen) grid plus boundary-biased random lengths to 4/64 KiB; 6 key/nonce pattern classes; output bytes and *clen compared with a from-the-spec model.',
          'Trusts the reference model (validated on pinned official vectors); keys/nonces sampled.', '4 C01'),
  'C02': ('exploration', 'mutation-driven runtime monitor (every single-bit flip, truncation, extension) on the real decrypt functions',
-         '15 families; per case every bit of ciphertext, tag, AD, nonce and key is flipped, plus truncation/extension/short inputs; result sign and the zero-wipe of a 0xA5 pre-filled plaintext buffer are asserted.',
+         '15 families; per case every bit of ciphertext, tag, AD, nonce and key is flipped, plus structured multi-bit tag forgeries, truncation/extension/short inputs; result sign and the zero-wipe of a 0xA5 pre-filled plaintext buffer are asserted; multi-packet decrypt sessions (genuine and forged packets made by the reference under N+i, carry-chain nonces).',
          'Multi-bit cancelling forgeries are sampled only.', '4 C02'),
  'C03': ('exploration', 'differential runtime monitor vs reference cXOF model',
          'hash/hasha/xof/xofa/fixed/custom entry points, every message length 0..300 and boundary-biased beyond, declared-length and name-length edge values, compared with a from-the-spec sponge.',
          'Trusts the reference; long-name hashing follows doc/cxof.dox.', '4 C03'),
  'C04': ('exploration', 'differential runtime monitor vs reference PRF/HMAC/KMAC + exhaustive single-bit tag mutation for verify',
-         'PRF/PrfShort/MAC/HMAC(A)/KMAC(A) one-shot and incremental against the model; PrfShort full (inlen,outlen) grid incl. error returns; verify against all 128 one-bit-wrong tags.',
+         'PRF/PrfShort/MAC/HMAC(A)/KMAC(A) one-shot and incremental against the model; PrfShort full (inlen,outlen) grid incl. error results (any non-zero) and input lengths of the form k*2^32+r; declared lengths up to SIZE_MAX incl. >= 2^32; verify against all 128 one-bit-wrong tags.',
          'Trusts the reference; PrfShort short output = truncation.', '4 C04'),
  'C05': ('exploration', 'differential runtime monitor vs generic RFC 5869 / RFC 8018 over the reference',
          'HKDF limit and zero-fill semantics driven across the 8160-byte boundary in random pieces; PBKDF2 iteration counts around the count>1/>2 branches with multi-block output; KDF via cXOF.',
@@ -25,7 +25,7 @@ CLAIMED = {
          'SIV and ISAP against the model; ISAP key objects snapshotted before/after every operation in 1..20-packet histories with save/load at a random point.',
          'Trusts the reference (ISAP: official vectors; SIV: pinned library vectors + doc/siv.dox).', '4 C06'),
  'C07': ('exploration', 'history-equivalence runtime monitor (random chunkings, copies, re-init, in-place) vs one-shot results',
-         'Random call histories over every incremental interface compared with the one-shot result of the same run.',
+         'Random call histories over every incremental interface compared with the one-shot result of the same run; multi-packet AEAD sessions on one state, each packet against the one-shot call.',
          'Histories are sampled; one-shot results tied to the reference in the same run.', '4 C07'),
  'C10': ('exploration', 'link-time TRNG tape interposer + differential runtime monitor on unmasked values and raw share words',
          'Masked AEAD, masked permutations x2/x3/x4, the whole masked-word toolkit and masked keys run under seven chosen random tapes on the x86-64, 64-bit C and 32-bit C masked backends and 4 (quick) / 27 (thorough) share triples each; unmasked values compared with the reference, raw share words compared before/after randomize.',
@@ -34,31 +34,31 @@ CLAIMED = {
          'Multi-packet sessions over 3 C session types and 12 C++ classes, starting nonces with every carry-chain length incl. the 2^128 wrap, mixing encrypt / good / bad decrypt; set_nonce lengths 0..40 and set_counter.',
          'Sessions are sampled; attribution rule for C++ mismatches stated in evidence assumptions.', '4 C14'),
  'C17': ('exploration', 'compile probes (one TU per documented member, compiler as oracle) + differential runtime monitor C++ vs C API per keying path',
-         '404 compile probes (808 with clang++ in thorough) over every documented member/overload; sessions over all keying paths and overloads of 12 cipher classes compared with the C functions; hash/xof templates vs the reference.',
+         '404 compile probes (808 with clang++ in thorough) over every documented member/overload; sessions over all keying paths and overloads of 12 cipher classes compared with the C functions; set_key on objects that already carry a nonce or are mid-session (control object decides); byte-array helper functions vs the C codec; ISAP save_key vs the C save_key; hash/xof templates vs the reference.',
          'g++ 12 / clang++ 14 only.', '4 C17'),
  'C15': ('fault_enumeration', 'link-time getrandom()/storage interposers with scripted faults + trace monitors (determinism, influence, inverse-permutation invariant, reseed counter, status)',
-         'Random PRNG histories run under a scripted entropy tape with ENOSYS/EINTR/EAGAIN scripts and storage faults; for histories with <= 8 source calls all 2^k failure subsets are enumerated; the forward-security invariant is observed after every operation through the public extract + reference inverse permutation.',
+         'Random PRNG histories run under a scripted entropy tape with ENOSYS/EINTR/EAGAIN scripts and storage faults (any number and size of source calls per operation; the interposer records where in a fetch each call happens); for histories with <= 8 source calls all 2^k failure subsets are enumerated; the forward-security invariant is observed after every operation through the public extract + reference inverse permutation; the stateless ascon_random() is exercised in forked children.',
          'Structure only, no output model; histories sampled; 2^-64 coincidences ignored.', '4 C15'),
  'C20': ('exploration', 'model-based runtime monitor (decoder model; std::vector shadow objects compared after every operation) + ASan/UBSan + guard pages',
-         'Hex codec on exact guard-page buffers against a small model incl. every byte value at every position of short strings; NO_STL byte_array sequences shadowed by std::vector on 4 aliased objects, release and ASan builds.',
+         'Hex codec on exact guard-page buffers against a small model incl. every byte value at every position of short strings (all three C++ overloads, std::string with embedded NUL); NO_STL byte_array sequences shadowed by std::vector on 4 aliased objects, release and ASan builds.',
          'Operation sequences sampled; undefined vector operations not called.', '4 C20'),
  'C12': ('exploration', 'ASan + UBSan builds of the whole harness corpus on exactly-sized guard-page buffers (canaries, NULL for empty inputs), -O3 builds under guard pages for the assembly, CLI tools under ASan on hostile argument vectors',
          'All ten harness programs re-run with every object between PROT_NONE pages under gcc ASan+UBSan for 5 backend/share builds (quick) or 87 configurations (thorough: the 3 masked backends x all 27 share triples, plus 6 direct-XOR/generic builds); release builds repeat it so that assembly accesses are covered; asconcrypt/asconsum under ASan with file names, passwords, key files and check files around every buffer size.',
          'Red-zone tools miss far/intra-object overflows and library stack locals; only documented argument domains.', '4 C12'),
  'C13': ('exploration', 'differential raw-byte snapshot monitor on released objects (two runs differing only in secrets), -O3 shipped code',
-         '42 object types through random histories; bytes of the storage after free/clear/destructor compared between two secret sets, with a liveness check that the bytes before release did differ.',
+         '42 object types through random histories; bytes of the storage after free/clear/destructor (C++ ciphers also through an ascon::aead* base pointer) compared between two secret sets (randomness drawn during the release comes from a public tape seed), with a liveness check that the bytes before release did differ.',
          'Says nothing about dead stack frames/registers; gcc 12 only.', '4 C13'),
- 'C19': ('fault_enumeration', 'process-level observer of the real tools + system-call fault injection with strace (every k-th read/write, open, getrandom; EINTR), tamper enumeration',
-         'Round trips over boundary sizes and option styles; a bit flip at every byte and every truncation length of encrypted files; failure of the k-th write/read for every k with confirmation that the fault fired; asconsum digests and check mode against the reference.',
+ 'C19': ('fault_enumeration', 'process-level observer of the real tools + system-call fault injection with strace (every k-th read/write, open, getrandom; EINTR) + LD_PRELOAD shim that makes the random device files unopenable, tamper enumeration',
+         'Round trips over boundary sizes and option styles (key file vs -p cross-decryption, non-ASCII passwords, wrong key file); a bit flip at every byte and every truncation length of encrypted files; failure of the k-th write/read for every k with confirmation that the fault fired; random source unavailable through every interface; asconsum digests and check mode against the reference.',
          'strace/ptrace injects the faults; tty password prompting not exercised.', '4 C19'),
  'C09': ('exploration', 'cross-build transcript differencing of one deterministic workload (per-case output digests) over build configurations',
          '20 configurations quick (5 backends, all (key,data) pairs on the C64 backend, MAX_SHARES 2/3 clamps, 3 acquire/release-checker builds) or 144 thorough; per-case digests of every library output compared across builds; the workload references all 187 public functions; crashes/aborts/build failures are violations.',
          'Equality only on the transcript inputs; each harness also checks against the reference in the same run.', '4 C09'),
- 'C11': ('exploration', 'valgrind memcheck taint tracking (secrets marked undefined) on the shipped -O3 objects incl. assembly',
-         'Every keyed primitive driven over public-shape grids with keys, plaintext, passwords, fed entropy and all getrandom bytes tainted; any secret-dependent branch or address is a memcheck report; a planted branch proves the monitor is live in every build.',
+ 'C11': ('exploration', 'valgrind memcheck taint tracking (secrets marked undefined) on the shipped -O3 objects incl. assembly; outcome arbiter (valgrind lackey segment traces) for reports inside decrypt/verify; lackey trace-pair differencing in thorough',
+         'Every keyed primitive driven over public-shape grids with keys, plaintext, passwords, fed entropy and all getrandom bytes tainted; any secret-dependent branch or address is a memcheck report, attributed to the operation in progress; a report inside a decrypt/verify (public outcome) is confirmed or cleared by comparing the instruction+data traces of 57 executions per shape (3 secret sets x 19 tag variants) within each outcome class; a planted branch proves the monitor is live in every build.',
          'Executed paths only; not micro-architectural; C++ wrapper branches on the public result excluded.', '4 C11'),
  'C16': ('exploration', 'ThreadSanitizer build + helgrind + DRD on the -O3 build over a multi-threaded workload with shared const objects; per-thread results vs sequential',
-         '2..16 threads, thousands of thread-operations per run on own objects and shared pre-computed ISAP / masked keys; three race detectors each proven live by a planted race; results compared with sequential execution.',
+         '2..16 threads, thousands of thread-operations per run on own objects and shared pre-computed ISAP / masked keys (24 operation kinds incl. HMAC keys longer than the block); 24 cold-start processes per TSan build whose 8 threads all begin with the same operation kind (no sequential warm-up: lazily initialised state is first touched concurrently); three race detectors each proven live by a planted race; results compared with sequential execution after the join.',
          'Schedules sampled; happens-before detectors.', '4 C16'),
  'C18': ('exploration', 'generator re-execution + register/stack sentinel trampolines on native x86-64 and i386 code + instrumented text interpreters for 12 non-host assembly files + ELF/process stack-permission observer',
          'All 18 generator outputs byte-compared (exhaustive over files); native x86-64 entry points (permutations, masked permutations, 35 masked-word functions) and the i386 permutation (32-bit static build) called through trampolines that check callee-saved registers, stack pointer, direction flag and caller-frame canaries; ARMv6, ARMv6-M, ARMv7-M, AArch64, AVR5 (+x2, x3, both strides), m68k (+ColdFire), RV32E/RV32I/RV64I and Xtensa (call0 + windowed) files executed by interpreters for all 12 starting rounds with result, ABI and memory-bounds assertions; GNU_STACK / .note.GNU-stack / live [stack] mapping.',
